@@ -27,6 +27,11 @@ TOL_F32 = Fraction(1, 1000)  # float32 logits (|logit| <= 3, |loss| <= ~300 afte
 THEOREMS = ["c03_best_completion_is_row_min", "c03_oc_member_iff", "c03_oc_row_correct", "c03_oc_sorted_nodup_then_padding",
             "c03_oc_past_end_is_padding", "c03_hard_ocd_loss_formula", "c03_hard_ocd_loss_reductions"]
 REDS = {"none": "RNone", "sum": "RSum", "mean": "RMean"}
+NEG_INF = float("-inf")
+# PV.C03.Model works on rationals: a log-probability of -inf is handed over as this stand-in.  The model reads the table only
+# at target classes, and a case in which a TARGET has log-probability -inf is judged by the python oracle of the definition
+# (loss_oracle) instead - should the stand-in ever be read, the model's loss is off by ~1e30, never silently right.
+NINF_STANDIN = Fraction(-10 ** 30)
 
 # case = dict(api="oc"|"loss", module, kw, ref=[N seqs of width R], hyp=[N seqs of width H], eos, include_eos,
 #             batch_first, exclude_last (oc only), costs=[ki,kd,ks] quarters, padding (oc: padding, loss: ignore_index),
@@ -43,6 +48,8 @@ def _logits_tensor(case):
     N, R, H = _dims(case)
     dt = torch.float32 if case.get("f32") else torch.float64
     t = torch.tensor(case["logits"], dtype=dt).reshape(H, N, case["V"]) / 4.0
+    if case.get("ninf"):  # 'ninf': 0/1 mask of the shape of 'logits' - the classes the network rules out (logit -inf)
+        t = t.masked_fill(torch.tensor(case["ninf"], dtype=torch.bool).reshape(H, N, case["V"]), NEG_INF)
     lay = case.get("llayout")
     if lay == "t":
         return t.contiguous().transpose(0, 1) if case["batch_first"] else t.transpose(0, 1).contiguous().transpose(0, 1)
@@ -149,6 +156,11 @@ def _frac(x):
     return f"{fr.numerator}/{fr.denominator}"
 
 
+def _raw(x):
+    x = float(x)
+    return _frac(x) if x == x and abs(x) != float("inf") else str(x)
+
+
 def run_impl(case):
     N, R, H = _dims(case)
     try:
@@ -171,6 +183,8 @@ def run_impl(case):
             res["val"] = out.tolist()
         elif not bool(torch.isfinite(out).all()):
             res["val"] = "nonfinite"
+            if case.get("ninf") and out.dim() in (0, 2):  # entry by entry, for the oracle: 'inf' / '-inf' / 'nan' / 'p/q'
+                res["raw"] = _raw(out.item()) if out.dim() == 0 else [[_raw(x) for x in row] for row in out.tolist()]
         elif out.dim() == 0:
             res["val"] = _frac(out)
         else:
@@ -212,7 +226,85 @@ def _oc_shape_ok(case, out):
 def _logp(case):
     """torch's own float64 log_softmax of the logits, in the case's layout (regime T oracle)"""
     lp = torch.log_softmax(_logits_tensor(case), -1)
-    return cl([cl([cl([_q(_frac(x)) for x in v]) for v in row]) for row in lp.tolist()])
+    ninf = cq(NINF_STANDIN)
+    return cl([cl([cl([ninf if x == NEG_INF else _q(_frac(x)) for x in v]) for v in row]) for row in lp.tolist()])
+
+
+def loss_oracle(case):
+    """The loss by the DEFINITION in the property text, nothing of the library or of the Coq model: the optimal-completion
+    targets of every prefix from oracle_pair (exact integer table), torch's log_softmax of the logits as data (as for the
+    model), per step the mean of -log p (times the class weight, if weights are given) over the targets, exactly 0 where
+    there are none, +inf ('inf') where a target has log-probability -inf (its weight must be > 0: 0 * inf is excluded by
+    in_space).  -> ('grid', [H][N] of Fraction | 'inf') for reduction 'none', ('scalar', Fraction | 'inf') for 'sum' /
+    'mean' (per sequence: sum over the steps / number of steps with a target, at least 1; then the batch mean), or None
+    when a pair is the excluded one (empty hypothesis: no prefix exists)."""
+    N, R, H = _dims(case)
+    lp = torch.log_softmax(_logits_tensor(case), -1)
+    if case["batch_first"]:
+        lp = lp.transpose(0, 1)
+    lp = lp.tolist()
+    w = None if case["weight"] is None else [Fraction(k, 4) for k in case["weight"]]
+    wants = [oracle_pair(case, n)[0] for n in range(N)]
+    if any(x == "any" for want in wants for x in want):
+        return None
+    grid = [[Fraction(0)] * N for _ in range(H)]
+    for n in range(N):
+        for k in range(H):
+            ts = wants[n][k] or []
+            if not ts:
+                continue
+            if any(lp[k][n][t] == NEG_INF for t in ts):
+                grid[k][n] = "inf"
+            else:
+                grid[k][n] = sum(-Fraction(lp[k][n][t]) * (1 if w is None else w[t]) for t in ts) / len(ts)
+    if case["reduction"] == "none":
+        return "grid", ([list(col) for col in zip(*grid)] if case["batch_first"] else grid)
+    if any(x == "inf" for row in grid for x in row):
+        return "scalar", "inf"
+    if case["reduction"] == "sum":
+        return "scalar", sum((x for row in grid for x in row), Fraction(0))
+    per = [sum((grid[k][n] for k in range(H)), Fraction(0)) / max(sum(1 for k in range(H) if wants[n][k]), 1) for n in range(N)]
+    return "scalar", sum(per, Fraction(0)) / N
+
+
+def oracle_loss_ok(case, out):
+    """the implementation's loss against loss_oracle: +inf exactly where the definition gives +inf, otherwise within the
+    case's tolerance; True when the oracle does not apply (excluded pair)"""
+    if "exc" in out or "unstable" in out:
+        return False
+    exp = loss_oracle(case)
+    if exp is None:
+        return True
+    N, R, H = _dims(case)
+    got = out.get("raw", out["val"])
+    if got == "nonfinite" or out["dtype"] != ("torch.float32" if case.get("f32") else "torch.float64"):
+        return False
+    tol = _tol(case)
+
+    def same(e, g):
+        if e == "inf":
+            return g == "inf"
+        return g not in ("inf", "-inf", "nan") and abs(Fraction(g) - e) <= tol
+
+    if exp[0] == "grid":
+        if out["shape"] != ([N, H] if case["batch_first"] else [H, N]):
+            return False
+        return all(same(e, g) for er, gr in zip(exp[1], got) for e, g in zip(er, gr))
+    return out["shape"] == [] and not isinstance(got, list) and same(exp[1], got)
+
+
+def target_ruled_out(case):
+    """some optimal-completion target of some prefix has logit -inf (the definition then gives a loss of +inf there, which
+    the rational model cannot express); targets from the python oracle"""
+    if not case.get("ninf"):
+        return False
+    N, R, H = _dims(case)
+    for n in range(N):
+        want = oracle_pair(case, n)[0]
+        for k in range(H):
+            if isinstance(want[k], list) and any(case["ninf"][k][n][t] for t in want[k] if 0 <= t < case["V"]):
+                return True
+    return False
 
 
 def _tol(case):
@@ -233,6 +325,8 @@ def model_term(case, out):
             return "false"
         obs = cl([cl([clz(row) for row in plane]) for plane in out["val"]])
         return f"check_oc {_cfg(case)} {cn(N)} {ref} {hyp} {obs}"
+    if target_ruled_out(case):  # expected loss +inf somewhere: outside the rational model, judged by the definition
+        return "true" if oracle_loss_ok(case, out) else "false"
     if out["val"] == "nonfinite" or out["dtype"] != ("torch.float32" if case.get("f32") else "torch.float64"):
         return "false"
     w = co(None if case["weight"] is None else cl([cq(Fraction(k, 4)) for k in case["weight"]]))
@@ -323,6 +417,14 @@ def in_space(case):
         for r in case["ref"]:  # every counted reference token must be a class index
             if any(not 0 <= t < V for t in _cut(r, case["eos"], case["include_eos"])):
                 return False
+        if case.get("ninf"):
+            m = case["ninf"]
+            if len(m) != H or any(len(p_) != N or any(len(v) != V for v in p_) for p_ in m):
+                return False
+            if any(all(v) for p_ in m for v in p_):
+                return False  # every class ruled out: no distribution (log_softmax is nan)
+            if case["weight"] is not None and any(b and case["weight"][t] == 0 for p_ in m for v in p_ for t, b in enumerate(v)):
+                return False  # weight 0 on a ruled-out class: 0 * inf if it is a target
     return True
 
 
@@ -379,6 +481,8 @@ def metamorphic(case, out, rng):
         c1 = dict(case, ref=[case["ref"][n]], hyp=[case["hyp"][n]])
         if not oc:
             c1["logits"] = _sub_logits(case, n)
+            if case.get("ninf"):
+                c1["ninf"] = [[row[n]] for row in case["ninf"]]
         o1 = run_impl(c1)
         if "exc" in o1:
             fails.append((f"pair {n} alone raises", c1, o1))
@@ -963,6 +1067,148 @@ def gen_long(chk, n_ref, n_hyp, big=()):
     return cases
 
 
+# ---- round 5: non-finite but legal logits (seeded C03-j) ------------------------------------------------------
+# A network may rule classes out completely (logit -inf: a blank / padding class masked before the softmax, a constrained
+# vocabulary).  log_softmax is then -inf at those classes and finite elsewhere, and the loss of the property - the mean of
+# -log p over the optimal-completion targets, exactly 0 where there are none - is finite whenever no TARGET is ruled out
+# (+inf otherwise).  Any formulation that touches the log-probability of a class that is not a target of the step (padded
+# slots gathered at some stand-in class and multiplied by a 0/1 mask, a dense one-hot product, a shift of the logits by
+# their min / mean) turns these inputs into NaN (inf * 0, inf - inf) although it is exact on finite logits.  The stream
+# puts -inf on: a whole class that is never a target (class 0 left unused by the transcripts, the spare top class, any
+# other), random non-target classes per step, ALL non-target classes (the distribution sits on the targets), only the
+# steps without a target (past the hypothesis's end, empty reference - expected exactly 0), and on targets themselves
+# (expected +inf, judged by the python oracle of the definition); ragged target counts, so that padded slots exist
+# beside the ruled-out classes; every entry point, reduction, weight, layout and dtype of the loss.
+NINF_KINDS = ("plane", "plane", "plane", "nontarget-some", "nontarget-some", "nontarget-all", "no-target-steps", "target",
+              "target", "mixed")
+
+
+def _ninf_mask(rng, case, kind):
+    """(0/1 mask [H][N][V], kind actually used) or None; target sets from the python oracle of the definition"""
+    N, R, H = _dims(case)
+    V = case["V"]
+    wants = [oracle_pair(case, n)[0] for n in range(N)]
+    if any(x == "any" for want in wants for x in want):
+        return None  # a pair with an empty hypothesis: the excluded case
+    tset = [[set(wants[n][k] or []) for n in range(N)] for k in range(H)]
+    ever = set().union(*[t for row in tset for t in row])
+    never = [v for v in range(V) if v not in ever]
+    m = [[[0] * V for _ in range(N)] for _ in range(H)]
+    if kind in ("plane", "mixed") and not never:
+        kind = "nontarget-some"
+    if kind == "no-target-steps" and all(t for row in tset for t in row):
+        kind = "nontarget-some"
+    if kind in ("plane", "mixed"):
+        first = 0 if (0 in never and rng.random() < 0.6) else rng.choice(never)
+        for v in {first} | {v for v in never if rng.random() < 0.3}:
+            for k in range(H):
+                for n in range(N):
+                    m[k][n][v] = 1
+    if kind in ("nontarget-some", "nontarget-all", "mixed", "no-target-steps", "target"):
+        p = {"nontarget-some": 0.5, "nontarget-all": 1.0, "mixed": 0.4, "no-target-steps": 0.6, "target": 0.25}[kind]
+        for k in range(H):
+            for n in range(N):
+                if kind == "no-target-steps" and tset[k][n]:
+                    continue
+                for v in range(V):
+                    if v not in tset[k][n] and rng.random() < p:
+                        m[k][n][v] = 1
+    if kind == "target":
+        steps = [(k, n) for k in range(H) for n in range(N) if tset[k][n]]
+        if not steps:
+            return None
+        for k, n in rng.sample(steps, min(len(steps), rng.randint(1, 2))):
+            m[k][n][rng.choice(sorted(tset[k][n]))] = 1
+    for k in range(H):  # a distribution needs one class that is not ruled out
+        for n in range(N):
+            if all(m[k][n]):
+                keep = sorted(tset[k][n]) or list(range(V))
+                if kind == "target" and len(keep) > 1:
+                    keep = [v for v in keep][1:]
+                m[k][n][rng.choice(keep)] = 0
+    if not any(b for p_ in m for x in p_ for b in x):
+        return None
+    return m, kind
+
+
+def _ninf_profile(case):
+    """what the mask of a ninf case reaches, from the python oracle's target sets: (-inf on a non-target class of a step
+    with a padded target slot, the same for class 0, -inf at a step without any target, a target ruled out)"""
+    N, R, H = _dims(case)
+    wants = [oracle_pair(case, n)[0] for n in range(N)]
+    cnt = [[len(wants[n][k] or []) if wants[n][k] != "any" else 0 for n in range(N)] for k in range(H)]
+    C = max([c for row in cnt for c in row] + [0])
+    m = case["ninf"]
+    padded = padded0 = empty = target = False
+    for k in range(H):
+        for n in range(N):
+            ts = set(wants[n][k] or []) if wants[n][k] != "any" else set()
+            non = [v for v in range(case["V"]) if m[k][n][v] and v not in ts]
+            if non and cnt[k][n] < C:
+                padded = True
+                padded0 = padded0 or 0 in non
+            if non and not ts:
+                empty = True
+            if any(m[k][n][t] for t in ts if t < case["V"]):
+                target = True
+    return padded, padded0, empty, target
+
+
+def gen_ninf(chk, n):
+    """hard OCD loss on logits that rule classes out (-inf), see the comment above"""
+    rng = chk.rng
+    cases = []
+    tries = 0
+    while len(cases) < n and tries < 30 * n:
+        tries += 1
+        blank0 = rng.random() < 0.5  # class 0 is a blank the transcripts never use
+        Vt = rng.randint(1, 3)
+        alphabet = [a + (1 if blank0 else 0) for a in range(Vt)]
+        top = alphabet[-1]
+        eos = rng.choice([None, top + 1, top + 1, top + 1, -1])
+        N, R, H = rng.randint(1, 3), rng.randint(1, 6), rng.randint(1, 6)
+        ref = []
+        for _n in range(N):
+            if eos is not None and rng.random() < 0.15:  # no target at any step (unless eos is counted)
+                ref.append([eos] + [rng.choice(alphabet + [eos]) for _ in range(R - 1)])
+            else:
+                ref.append(_rand_seq(rng, R, alphabet, eos, p_noeos=0.4))
+        foreign = [top + 2, top + 2]
+        hyp = [(_mutate(rng, r, alphabet, eos, H) if rng.random() < 0.4 else _rand_seq(rng, H, alphabet + foreign, eos, 0.4))
+               for r in ref]
+        ie = (eos is None or eos >= 0) and rng.random() < 0.6
+        V = max(top, eos if (eos is not None and eos >= 0) else 0) + 1 + rng.randint(0, 1)
+        case = dict(api="oc", module=rng.random() < 0.35, kw=rng.random() < 0.4, ref=ref, hyp=hyp, eos=eos, include_eos=ie,
+                    batch_first=rng.random() < 0.5, exclude_last=True,
+                    costs=[4, 4, 4] if rng.random() < 0.5 else [rng.randint(1, 12) for _ in range(3)], padding=-2,
+                    warn=rng.random() < 0.1, stream="ninf-logits")
+        case = _loss_extras(rng, case, V)
+        case["reduction"] = rng.choice(["none", "none", "sum", "mean", "mean"])
+        res = _ninf_mask(rng, case, rng.choice(NINF_KINDS))
+        if res is None:
+            continue
+        case["ninf"], case["ninf_kind"] = res
+        if case["weight"] is not None:  # weight 0 stays legal on the classes that are never ruled out
+            out_ = {v for p_ in case["ninf"] for x in p_ for v, b in enumerate(x) if b}
+            case["weight"] = [max(k, 1) if v in out_ else k for v, k in enumerate(case["weight"])]
+        u = rng.random()
+        if u < 0.3:
+            case["entry"] = ("sparse", "sparse", "script_fn", "script_fn", "script", "trace")[int(u * 1000) % 6]
+            if case["entry"] == "sparse":
+                case["keep"] = [k for k in DEFAULTS["loss"] if rng.random() < 0.2]
+                if rng.random() < 0.5:
+                    case["padding"] = -100 if case["module"] else -2
+        elif u < 0.45:
+            case["history"] = True
+        case["llayout"] = rng.choice([None, None, "t", "offset", "vlast"])
+        if rng.random() < 0.25 and max(abs(x) for p_ in case["logits"] for r_ in p_ for x in r_) <= 12:
+            case["f32"] = True
+        if not in_space(case):
+            continue
+        cases.append(case)
+    return cases
+
+
 def gen_cases(chk):
     thorough = chk.tier == "thorough"
     cases = gen_exhaustive(chk)
@@ -982,6 +1228,7 @@ def gen_cases(chk):
     cases += gen_numeric(chk, 800 if thorough else 70)
     cases += gen_long(chk, 21 if thorough else 3, 14 if thorough else 2, big=(513, 1025) if thorough else (513,))
     cases += gen_tie_scale(chk, 3200 if thorough else 280)
+    cases += gen_ninf(chk, 1800 if thorough else 170)
     return [c for c in cases if in_space(c)]
 
 
@@ -1010,6 +1257,8 @@ def _cands(case):
             c = dict(case, ref=case["ref"][:n] + case["ref"][n + 1:], hyp=case["hyp"][:n] + case["hyp"][n + 1:])
             if loss:
                 c["logits"] = [row[:n] + row[n + 1:] for row in case["logits"]]
+                if case.get("ninf"):
+                    c["ninf"] = [row[:n] + row[n + 1:] for row in case["ninf"]]
             yield c
     if R > 1:
         yield dict(case, ref=[s[:-1] for s in case["ref"]])
@@ -1018,14 +1267,28 @@ def _cands(case):
         c = dict(case, hyp=[s[:-1] for s in case["hyp"]])
         if loss:
             c["logits"] = case["logits"][:-1]
+            if case.get("ninf"):
+                c["ninf"] = case["ninf"][:-1]
         yield c
         c = dict(case, hyp=[s[1:] for s in case["hyp"]])
         if loss:
             c["logits"] = case["logits"][1:]
+            if case.get("ninf"):
+                c["ninf"] = case["ninf"][1:]
         yield c
     for key in ("batch_first", "include_eos", "module", "warn", "kw") + (() if loss else ("exclude_last",)):
         if case.get(key):
             yield dict(case, **{key: False})
+    if loss and case.get("ninf"):  # fewer ruled-out classes: a whole class, then a whole position
+        m = case["ninf"]
+        for v in range(case["V"]):
+            if any(x[v] for p_ in m for x in p_) and any(x[u] for p_ in m for x in p_ for u in range(case["V"]) if u != v):
+                yield dict(case, ninf=[[[0 if u == v else b for u, b in enumerate(x)] for x in p_] for p_ in m])
+        hot = [(k, n) for k, p_ in enumerate(m) for n, x in enumerate(p_) if any(x)]
+        if len(hot) > 1:
+            for k0, n0 in hot[:6]:
+                yield dict(case, ninf=[[[0] * len(x) if (k, n) == (k0, n0) else list(x) for n, x in enumerate(p_)]
+                                       for k, p_ in enumerate(m)])
     if loss and case["reduction"] != "none":
         yield dict(case, reduction="none")
     if loss and case["weight"] is not None:
@@ -1077,6 +1340,15 @@ def judge(chk, case, out):
         to = run_impl(tc)
         t_ok, judged_by = spec_verdict(chk, tc, to)
         rec["targets_call"], rec["targets_impl"], rec["spec_accepts_targets"] = tc, to, t_ok
+        if case.get("ninf"):
+            exp = loss_oracle(case)
+            fl = lambda x: x if x == "inf" else float(x)  # noqa: E731
+            rec["ninf"] = ("field 'ninf' marks the classes whose logit is -inf; in 'model' their log-probability is the "
+                           "stand-in %d (never read unless such a class is a target)" % NINF_STANDIN)
+            rec["definition_expected"] = None if exp is None else (
+                [[fl(x) for x in row] for row in exp[1]] if exp[0] == "grid" else fl(exp[1]))
+            rec["definition_accepts_impl"] = oracle_loss_ok(case, out)
+            rec["a_target_is_ruled_out"] = target_ruled_out(case)
         rec["what"] = ("hard OCD loss differs from the mean negative log-probability over the optimal-completion targets "
                        "(reduced as requested)" + ("" if t_ok else "; the targets themselves violate the spec"))
     elif spec_ok:
@@ -1148,6 +1420,11 @@ def run(chk, cases=None):
         "an exact python oracle of the definition (row minima of the integer table) because C03.Spec is exponential in "
         "the prefix length",
         "loss in regime T: log_softmax is torch's float64 result; no discrete decision depends on the logits",
+        "stream ninf-logits: logits may be -inf (never +inf / nan, never a whole row, never with class weight 0).  A "
+        "log-probability of -inf enters PV.C03.Model as the stand-in -1e30, which the model reads only if the class is a "
+        "target; when the python oracle of the definition finds a ruled-out target (expected loss +inf) the case is judged by "
+        "that oracle alone (loss_oracle: exact integer table for the targets, torch's log_softmax as data, +inf exactly "
+        "where the definition gives it); every ninf case is judged by the oracle in addition to the model",
         "all three costs > 0 (hypothesis of c03_oc_member_iff); reference tensors of width 0 raise IndexError in "
         "_string_matching(return_mask=True) and zero-width tensors with eos raise in _lens_from_eos: outside the input space",
         "loss cases: every counted reference token is a class index, ignore_index is not, eos is a class index when counted",
@@ -1202,6 +1479,17 @@ def run(chk, cases=None):
             for plane in out["val"]:
                 for row in plane:
                     chk.count("targets_per_row=%d" % sum(1 for t in row if t != c["padding"]))
+        if c["api"] == "loss" and c.get("ninf"):
+            pad_, pad0_, empty_, tgt_ = _ninf_profile(c)
+            chk.count("ninf=" + c.get("ninf_kind", "corpus") + "/" + c["reduction"])
+            chk.count("ninf: judged by " + ("the python oracle of the definition (a target ruled out: loss +inf)" if tgt_
+                                            else "PV.C03.Model (every target has a finite log-probability)"))
+            for name, hit in (("-inf on a non-target class at a step with a padded target slot", pad_),
+                              ("-inf on class 0, not a target, at a step with a padded target slot", pad0_),
+                              ("-inf on some class at a step without any target (expected exactly 0)", empty_),
+                              ("-inf on a target (expected +inf)", tgt_)):
+                if hit:
+                    chk.count("ninf: cases with " + name)
         if c["api"] == "loss":
             chk.count("weight=" + ("given" if c["weight"] is not None else "none"))
             if c["eos"] is not None and not c["include_eos"]:
@@ -1221,7 +1509,8 @@ def run(chk, cases=None):
     slow_set = set(slow)
     fast = [i for i in range(len(cases)) if i not in slow_set]
     # every optimal_completion output of the run is also judged by the spec alone (model-free)
-    NEW = ("loss-empty-ref", "eos-mix", "sparse-defaults", "entry-layout", "numeric", "long-ref", "long-hyp", "tie-scale")
+    NEW = ("loss-empty-ref", "eos-mix", "sparse-defaults", "entry-layout", "numeric", "long-ref", "long-hyp", "tie-scale",
+           "ninf-logits")
     oc_idx = [i for i, c in enumerate(cases) if c["api"] == "oc" and i not in slow_set and _spec_work(c) <= 200_000 and
               (replaying or (chk.tier == "thorough" and streams[i] != "exhaustive") or
                i % (4 if streams[i] in NEW else 2) == 0)]
@@ -1263,6 +1552,12 @@ def run(chk, cases=None):
     chk.extra["oracle_judged_outputs"] = len(orc_idx)
     chk.extra["oracle_rejections"] = len(orc_bad)
     spec_bad += [i for i in orc_bad if i not in spec_bad]
+    # every loss on logits with ruled-out classes is also judged by the python oracle of the definition (loss_oracle)
+    nf_idx = [i for i, c in enumerate(cases) if c["api"] == "loss" and c.get("ninf")]
+    nf_bad = [i for i in nf_idx if not oracle_loss_ok(cases[i], outs[i])]
+    chk.extra["ninf_oracle_judged_losses"] = len(nf_idx)
+    chk.extra["ninf_oracle_rejections"] = len(nf_bad)
+    spec_bad += [i for i in nf_bad if i not in spec_bad]
     chk.extra["spec_judged_outputs"] = len(oc_idx)
     chk.extra["spec_rejections"] = len(spec_bad)
 
@@ -1304,6 +1599,7 @@ def run(chk, cases=None):
         chk.report(rec, no_failing_input=True)
     from props import c03_tie  # source tie: the translated _string_matching(return_mask=True) interpreted in Coq on this run's cases
     c03_tie.source_tie(chk, cases, outs)
+    c03_tie.source_tieB(chk, cases, outs)  # second tie: hard_optimal_completion_distillation_loss (unit C03BSrc)
 
 
 def replay(chk, path):
